@@ -631,3 +631,17 @@ package workflow
 //@   on aftercall .Decode : pend = (result == nil)
 //@   on mapupdate m : pend = false
 //@   loop 1 invariant !pend
+
+// C13 (an outbound channel connects to where the matching inbound channel was bound - under the alias the inbound side
+// RESOLVED to): the fields handed to the template engine are the role's own channel declarations; what the engine
+// resolves and writes back through a field's setter is stored in r.Connect[index].Target / r.Bind[index].Global
+// themselves, not in a copy of the declaration. (Precondition: the engine calls a setter for a field that was built
+// for an existing entry - the closures' callers are in the template package, outside these contracts.)
+//@ closure (*roleBase).wrapBindAndConnectFields #2
+//@   property C13
+//@   requires r != nil && 0 <= index && index < len(r.Connect)
+//@   ensures r.Connect[index].Target == value
+//@ closure (*roleBase).wrapBindAndConnectFields #4
+//@   property C13
+//@   requires r != nil && 0 <= index && index < len(r.Bind)
+//@   ensures r.Bind[index].Global == value
